@@ -657,6 +657,12 @@ func (t *trans) call(x *cCall) (string, vtype) {
 	case "born":
 		s, _ := arg(0)
 		return "(born " + s + ")", intT
+	case "backing": // backing(s): the object holding the elements of the slice s
+		s, vt := arg(0)
+		if vt.sort != "Slice" {
+			t.fail("backing() of a non-slice")
+		}
+		return "(sdata " + s + ")", vtype{"Ref", nil}
 	case "fresh": // allocated during the call: born >= old allocation counter
 		s, _ := arg(0)
 		if t.old == nil {
